@@ -514,6 +514,25 @@ def body_diagform(case, ctx):
                       np.asarray(Wi)[idx], ures[1], rtol=0, atol=1e-12)
     if len(sigs) > 1:
         ctx.label("mixed-signatures-in-batch")
+    # a caller's work array: diagonalised, then overwritten in place with another form (its
+    # negative, rotated by swapping the first two axes of R^n), then diagonalised again
+    work = Bs.copy()
+    utils.diagonalize_form(work, **kw)
+    new = -Bs
+    if n >= 2:
+        new = new[..., [1, 0] + list(range(2, n)), :][..., :, [1, 0] + list(range(2, n))]
+    work[...] = new
+    res2 = utils.diagonalize_form(work, **kw)
+    W2 = np.asarray(res2[0] if winv else res2)
+    for idx in np.ndindex(*shape):
+        D2 = W2[idx].T @ new[idx] @ W2[idx]
+        ctx.small("a form array overwritten in place: W^T B W off-diagonal for the CURRENT "
+                  "form", D2 - np.diag(np.diag(D2)), 1e-11 * n)
+        ctx.close("a form array overwritten in place: W^T B W diagonal +-1",
+                  np.abs(np.diag(D2)), np.ones(n), rtol=0, atol=1e-11 * n)
+        if winv:
+            ctx.close("a form array overwritten in place: W Winv = I",
+                      W2[idx] @ np.asarray(res2[1])[idx], np.eye(n), rtol=0, atol=1e-11 * n)
 
 
 @st.composite
